@@ -1,12 +1,15 @@
 #!/bin/bash
-# try_seed.sh <patch.diff> <check id> [more ids...]: apply a seeded change to /repo, run checks, undo.
+# try_seed.sh <patch.diff> <check id> [more ids...]: apply a seeded change to /repo, run the checks
+# (in parallel), undo the change.  TIER=quick|thorough.  Output: one line per check.
 P=$1; shift
 git -C /repo diff --quiet || { echo "/repo is dirty"; exit 2; }
 git -C /repo apply "$P" || exit 2
+TAG=$(echo "$P" | tr '/' '_' | tr -d '.')
 for C in "$@"; do
-  echo "=== $C on $(basename $(dirname $P))"
-  /verif/check $C --tier ${TIER:-quick} > /tmp/try_seed_$C.log 2>&1; echo "exit=$?"
-  grep -E "VIOLATION|KNOWN-FINDING|MACHINERY" /tmp/try_seed_$C.log | head -5
-  grep -A1 "VIOLATION" /tmp/try_seed_$C.log | grep -v VIOLATION | head -3
+  ( /verif/check $C --tier ${TIER:-quick} > /tmp/try_${TAG}_$C.log 2>&1; rc=$?
+    echo "== $P $C exit=$rc $(grep -c VIOLATION /tmp/try_${TAG}_$C.log) violation line(s)"
+    grep -A1 -m2 "VIOLATION" /tmp/try_${TAG}_$C.log | grep -v "^--" | cut -c1-300
+    grep -m2 "MACHINERY" /tmp/try_${TAG}_$C.log ) &
 done
+wait
 git -C /repo checkout -- .
